@@ -86,6 +86,27 @@ pub fn gen_script(rng: &mut Rng, n: usize) -> (FCfg, Vec<Op>) {
         };
         ops.push(op);
     }
+    // expiry window: a key's TTL runs out and (when no ticker runs) it stays unswept; then it is looked up,
+    // written conditionally and unconditionally — both flavours must treat the dead entry alike
+    if rng.chance(1, 2) {
+        let at = rng.below(ops.len() as u64 + 1) as usize;
+        let idx = rng.below(universe);
+        let conf = rng.below(3);
+        let block = vec![
+            Op::Insert { idx, conf, val: val + 1, cost: 1, ttl: SEC / 2, only: false },
+            Op::Clock(SEC),
+            Op::Get { idx, conf },
+            Op::Insert { idx, conf, val: val + 2, cost: 1, ttl: 0, only: true },
+            Op::Get { idx, conf },
+            Op::GetTtl { idx, conf },
+            Op::Insert { idx, conf, val: val + 3, cost: 1, ttl: 2 * SEC, only: false },
+            Op::GetTtl { idx, conf },
+        ];
+        val += 3;
+        for (i, op) in block.into_iter().enumerate() {
+            ops.insert(at + i, op);
+        }
+    }
     ops.push(Op::Close);
     ops.push(Op::Get { idx: 0, conf: 0 });
     ops.push(Op::Insert { idx: 0, conf: 0, val: val + 1, cost: 1, ttl: 0, only: false });
